@@ -1402,6 +1402,14 @@ func ruleCommentCtx(p *Program, r *Reporter) {
 	}
 	seen := map[*ssa.Function]bool{}
 	n := 0
+	// the places where the token function skips: calls of the skip helpers,
+	// and loops of its own that only advance (the helpers written out in place)
+	type skipSite struct {
+		b    *ssa.BasicBlock
+		pos  token.Pos
+		name string
+	}
+	var sites []skipSite
 	for _, b := range fn.Blocks {
 		for _, ins := range b.Instrs {
 			cc := callOf(ins)
@@ -1418,8 +1426,22 @@ func ruleCommentCtx(p *Program, r *Reporter) {
 				continue
 			}
 			seen[cc.StaticCallee()] = true
+			sites = append(sites, skipSite{b, ins.Pos(), cc.StaticCallee().Name()})
+		}
+	}
+	if adv != nil {
+		for _, lp := range charLoops(p, adv) {
+			if lp.fn == fn && lp.onlyAdvances {
+				sites = append(sites, skipSite{lp.h, firstPos(lp.h), fmt.Sprintf("the loop %d of the token function", lp.no)})
+			}
+		}
+	}
+	for _, site := range sites {
+		b := site.b
+		{
+			ins := posInstr{site.pos}
 			n++
-			key := "skipping by " + cc.StaticCallee().Name() + " does not depend on the previous token"
+			key := "skipping by " + site.name + " does not depend on the previous token"
 			dep := token.NoPos
 			depends := false
 			for d := b; d.Idom() != nil; d = d.Idom() {
@@ -1771,3 +1793,8 @@ func namesOpcodes(info *types.Info, fd *ast.FuncDecl) bool {
 	})
 	return found
 }
+
+// posInstr: a position standing in for an instruction in a report.
+type posInstr struct{ pos token.Pos }
+
+func (x posInstr) Pos() token.Pos { return x.pos }
